@@ -447,13 +447,12 @@ class Program:
                 self._load(mod, full, rel, False)
         self._load_deps()
         # calls of functions that do not exist on the reference tree (freshly extracted helpers) are expanded in place
-        from .inline import inline_new_helpers, load_inventory
+        from .inline import inline_package, load_inventory
         known = None if os.environ.get("SIGSTAT_NO_INLINE") else load_inventory()
-        self.inline_log: List[str] = []
-        for m in list(self.modules.values()):
-            if not m.is_dep:
-                m.tree, log = inline_new_helpers(m.name, m.tree, known)
-                self.inline_log += log
+        own = {m.name: (m.tree, m.path.endswith("__init__.py")) for m in self.modules.values() if not m.is_dep}
+        trees, self.inline_log = inline_package(own, known)
+        for name, tree in trees.items():
+            self.modules[name].tree = tree
         for m in list(self.modules.values()):
             self._index_module(m)
         self._resolve_bases()
